@@ -611,6 +611,18 @@ func excludedSnapshot(n *spec.Node, rv reflect.Value, path string, out map[strin
 	}
 }
 
+func isEmptyValue(x interface{}) bool {
+	v := reflect.ValueOf(x)
+	if !v.IsValid() {
+		return true
+	}
+	switch v.Kind() {
+	case reflect.Slice, reflect.Map:
+		return v.Len() == 0
+	}
+	return v.IsZero()
+}
+
 // source objects for Read
 func (re *rootEnv) drawSource(t *rapid.T, prop string, label string, h *history) (types.Object, string) {
 	switch rapid.IntRange(0, 3).Draw(t, label+"/srckind") {
@@ -670,8 +682,20 @@ func propC05(re *rootEnv) func(*rapid.T) {
 			// excluded fields untouched
 			exAfter := map[string]interface{}{}
 			excludedSnapshot(re.view, reflect.ValueOf(S).Elem(), "", exAfter)
-			if !reflect.DeepEqual(exBefore, exAfter) {
-				violate(t, "C05/excluded-untouched", "excluded fields changed: before %v after %v", exBefore, exAfter)
+			// a field that could not be observed on one side (its nullable embedded parent was nil) counts as zero
+			for k, a := range exAfter {
+				b, ok := exBefore[k]
+				if !ok {
+					b = reflect.Zero(reflect.TypeOf(a)).Interface()
+				}
+				if !reflect.DeepEqual(a, b) && !(isEmptyValue(a) && isEmptyValue(b)) {
+					violate(t, "C05/excluded-untouched", "excluded field %s changed: before %v after %v\nhistory: %s", k, brief(b), brief(a), strings.Join(h.lines, " ; "))
+				}
+			}
+			for k, b := range exBefore {
+				if _, ok := exAfter[k]; !ok && !isEmptyValue(b) {
+					violate(t, "C05/excluded-untouched", "excluded field %s was dropped with its embedded parent: before %v\nhistory: %s", k, brief(b), strings.Join(h.lines, " ; "))
+				}
 			}
 			// payload independence: twin with payload under null/unknown, into a copy of the prior target
 			twin := withPayload(cloneObject(X), re.objType).(types.Object)
@@ -708,7 +732,7 @@ func branchesOf(n *spec.Node, o spec.OneofRef) []*spec.Entry {
 }
 
 // c07Walk checks every oneof holder of struct rv (decoded from obj) exactly — no normal form.
-func c07Walk(t *rapid.T, re *rootEnv, n *spec.Node, rv reflect.Value, obj tftypes.Value, path string, h *history) {
+func c07Walk(t *rapid.T, re *rootEnv, n *spec.Node, rv reflect.Value, obj tftypes.Value, path string, strict bool, h *history) {
 	m := attrsOf(obj)
 	for _, o := range n.Oneofs {
 		br := branchesOf(n, o)
@@ -752,6 +776,9 @@ func c07Walk(t *rapid.T, re *rootEnv, n *spec.Node, rv reflect.Value, obj tftype
 					path, e.Attr, tfString(m[e.Attr]), brief(hf.Interface()), strings.Join(h.lines, " ; "))
 			}
 			pf := hf.Elem().Elem().Field(0)
+			if !strict && e.F.Kind == spec.KMessage {
+				break // nested groups of the payload may have several active branches: checked per level below
+			}
 			want := refElem(e, m[e.Attr], pf.Type())
 			if d := nfDiff(nfElem(e, pf, true), nfElem(e, want, true), path+"."+e.Attr); d != "" {
 				violate(t, "C07/holder-holds-value/"+cls, "branch payload differs: %s\nhistory: %s", d, strings.Join(h.lines, " ; "))
@@ -786,7 +813,7 @@ func c07Walk(t *rapid.T, re *rootEnv, n *spec.Node, rv reflect.Value, obj tftype
 			must(m[e.Attr].As(&els))
 			for i := 0; i < fv.Len() && i < len(els); i++ {
 				if ev := indirect(fv.Index(i)); ev.IsValid() && present(els[i]) {
-					c07Walk(t, re, e.Child, ev, els[i], fmt.Sprintf("%s[%d]", p, i), h)
+					c07Walk(t, re, e.Child, ev, els[i], fmt.Sprintf("%s[%d]", p, i), strict, h)
 				}
 			}
 		case spec.CardMap:
@@ -802,12 +829,12 @@ func c07Walk(t *rapid.T, re *rootEnv, n *spec.Node, rv reflect.Value, obj tftype
 				c := reflect.New(indirectType(mv.Type())).Elem()
 				if iv := indirect(mv); iv.IsValid() {
 					c.Set(iv)
-					c07Walk(t, re, e.Child, c, el, p+"["+k+"]", h)
+					c07Walk(t, re, e.Child, c, el, p+"["+k+"]", strict, h)
 				}
 			}
 		default:
 			if ev := indirect(fv); ev.IsValid() {
-				c07Walk(t, re, e.Child, ev, m[e.Attr], p, h)
+				c07Walk(t, re, e.Child, ev, m[e.Attr], p, strict, h)
 			}
 		}
 	}
@@ -898,7 +925,7 @@ func propC07(re *rootEnv) func(*rapid.T) {
 				must(err)
 				h.add("Read", tfString(v))
 				re.copyFrom(t, "C07", X, S, h)
-				c07Walk(t, re, re.view, reflect.ValueOf(S).Elem(), v, "", h)
+				c07Walk(t, re, re.view, reflect.ValueOf(S).Elem(), v, "", mode.oneofAtMost1, h)
 			}
 		}
 	}
